@@ -821,6 +821,10 @@ class Interp:
             if iv2 is not None:
                 kn.bounds[t] = T._iv_union(iv, iv2)
         kn.ineqs = [f for f in s1.kn.ineqs if f in s2.kn.ineqs]
+        kn.ors = [a for a in s1.kn.ors if a in s2.kn.ors]
+        for a in kn.atoms:
+            if isinstance(a, Sym) and a.op == 'or' and a not in kn.ors:
+                kn.ors.append(a)
         # facts that hold on one arm only survive as implications
         kn.implied = [x for x in s1.kn.implied if x in s2.kn.implied]
         if isinstance(g, Sym):
